@@ -500,6 +500,53 @@ func TestC17(t *testing.T) {
 		}
 	})
 
+	// a bare print (and a rule without a body) prints $ as it is at that moment: again
+	// after stores below $, after $ was assigned, in several rules for one record
+	check(rec, "bare-print", scale(2500, 1500000), func(rt *rapid.T) {
+		o := gen.DocOpts{Depth: 2, MaxItems: 3, SafeStr: true, SmallNums: true, Keys: []string{"n", "list", "k"}}
+		nrec := rapid.IntRange(1, 3).Draw(rt, "nrec")
+		root := jsonx.VArr()
+		for i := 0; i < nrec; i++ {
+			el := jsonx.VObj(jsonx.Member{Key: "n", Val: jsonx.VNum(float64(i))}, jsonx.Member{Key: "list", Val: jsonx.VArr(jsonx.VNum(1))}, jsonx.Member{Key: "k", Val: gen.JSONDoc(o).Draw(rt, "kval")})
+			root.Items = append(root.Items, el)
+		}
+		store := func() *ast.Node {
+			switch rapid.IntRange(0, 5).Draw(rt, "store") {
+			case 0:
+				return ast.ExprS(ast.Set(ast.Mem(ast.Dollar(), "n"), ast.Str("changed")))
+			case 1:
+				return ast.ExprS(ast.Method(ast.Mem(ast.Dollar(), "list"), "push", ast.Num("9")))
+			case 2:
+				return ast.ExprS(ast.Set(ast.Mem(ast.Mem(ast.Dollar(), "fresh"), "deep"), ast.True()))
+			case 3:
+				return ast.ExprS(ast.Post("++", ast.Mem(ast.Dollar(), "n")))
+			case 4:
+				return ast.ExprS(ast.Set(ast.Dollar(), ast.Arr(ast.Mem(ast.Dollar(), "n"), ast.Str("replaced"))))
+			default:
+				return ast.ExprS(ast.Set(ast.Idx(ast.Mem(ast.Dollar(), "list"), ast.Num("0")), ast.Obj(ast.KV("inner", ast.Num("2")))))
+			}
+		}
+		var items []*ast.Node
+		for r, nr := 0, rapid.IntRange(1, 3).Draw(rt, "nrules"); r < nr; r++ {
+			if rapid.IntRange(0, 3).Draw(rt, "bodiless") == 0 {
+				items = append(items, ast.Rule("pattern", ast.Bin("!=", ast.Mem(ast.Dollar(), "n"), ast.Str("zzz")), nil), ast.Rule("END", nil, ast.Block(ast.Print(ast.Str("pad")))))
+				continue
+			}
+			var stmts []*ast.Node
+			for k, ns := 0, rapid.IntRange(2, 5).Draw(rt, "nstmts"); k < ns; k++ {
+				if rapid.Bool().Draw(rt, "isprint") {
+					stmts = append(stmts, ast.Print())
+				} else {
+					stmts = append(stmts, store())
+				}
+			}
+			stmts = append(stmts, ast.Print(), ast.Print(ast.Str("same:"), ast.Dollar()))
+			items = append(items, ast.Rule("pattern", nil, ast.Block(stmts...)))
+		}
+		c := &DCase{Prog: ast.Prog(items...), Files: []DFile{{Name: "in", Docs: []string{gen.Compact(root)}}}}
+		runDiff(rec, rt, "render", c, false, func(*diffResult) bool { return true }, "bare-print-after-stores")
+	})
+
 	check(rec, "reread-random", scale(5000, 4000000), func(rt *rapid.T) {
 		opts := gen.DocOpts{Depth: rapid.IntRange(1, 4).Draw(rt, "depth"), MaxItems: 3, SafeStr: true, ForceEmpty: true}
 		if rapid.IntRange(0, 7).Draw(rt, "wide") == 0 {
